@@ -2793,6 +2793,10 @@ impl LineBuf {
 						Direction::Backward => pos.add(1),
 					}
 				}
+				if verb.is_some() && direction == Direction::Forward && pos.get() == self.cursor.get() {
+					// 't' found the character right after the cursor: an operator still takes the cursor character
+					return MotionKind::Inclusive((pos.get(),pos.get()))
+				}
 				MotionKind::Onto(pos.get())
 			}
 			MotionCmd(count,motion @ (Motion::ForwardChar | Motion::BackwardChar)) => {
